@@ -78,7 +78,8 @@ func svcFile(path string, names ...string) *descriptorpb.FileDescriptorProto {
 	var svcs []*descriptorpb.ServiceDescriptorProto
 	for _, n := range names {
 		svcs = append(svcs, dyn.Svc(n, dyn.MethodSpec{Name: "Ping", In: ".un.All", Out: ".un.All",
-			Rule: &annotations.HttpRule{Pattern: &annotations.HttpRule_Get{Get: "/fx/" + strings.ToLower(n)}}}))
+			Rule: &annotations.HttpRule{Pattern: &annotations.HttpRule_Get{Get: "/fx/" + strings.ToLower(n)},
+				AdditionalBindings: []*annotations.HttpRule{{Pattern: &annotations.HttpRule_Get{Get: "/fx/" + strings.ToLower(n) + "/{f_bytes}"}}}}}))
 	}
 	f := dyn.File(path, "un", nil, nil, svcs)
 	f.Dependency = append(f.Dependency, "un.proto")
